@@ -157,6 +157,7 @@ func c16AddEntry(c *Ctx, sx *symx.Ctx, fn *ssa.Function) {
 	collapse := func(key string, apBlock *ssa.BasicBlock, apPos token.Pos) {
 		// O-3: collapse
 		var dup *ssa.If
+		var lastPtr *ssa.Call
 		for _, iff := range ssau.Ifs(fn) {
 			op, x, y, ok := ssau.CondOf(iff.Cond)
 			if !ok || op != token.EQL {
@@ -175,6 +176,33 @@ func c16AddEntry(c *Ctx, sx *symx.Ctx, fn *ssa.Function) {
 			}
 			fa, ok := u.X.(*ssa.FieldAddr)
 			if !ok || ssau.FieldName(fa) != "Query" {
+				continue
+			}
+			// through an accessor: last := sh.lastEntry() — nil for an empty
+			// history, else &Entries[len(Entries)-1] — tested non-nil first
+			if lc, isCall := fa.X.(*ssa.Call); isCall && c16LastEntryAccessor(c, sx, lc, fn) {
+				cut := map[[2]int]bool{}
+				for _, i2 := range ssau.Ifs(fn) {
+					op2, x2, y2, ok2 := ssau.CondOf(i2.Cond)
+					if !ok2 {
+						continue
+					}
+					if ssau.IsNilConst(x2) {
+						x2, y2 = y2, x2
+					}
+					if x2 != ssa.Value(lc) || !ssau.IsNilConst(y2) {
+						continue
+					}
+					switch op2 {
+					case token.NEQ:
+						cut[[2]int{i2.Block().Index, 0}] = true
+					case token.EQL:
+						cut[[2]int{i2.Block().Index, 1}] = true
+					}
+				}
+				guarded := len(cut) > 0 && !ssau.ReachableAvoidingEdges(fn, u.Block(), cut)
+				r.Check(guarded, "O-3", fk+"#last-index-guarded", c.P.Pos(u.Pos()), "the last entry is read only when the accessor returned non-nil (a non-empty history)", "the last entry is read without a dominating non-nil test of the accessor's result: an empty history panics")
+				dup, lastPtr = iff, lc
 				continue
 			}
 			ia, ok := fa.X.(*ssa.IndexAddr)
@@ -205,6 +233,12 @@ func c16AddEntry(c *Ctx, sx *symx.Ctx, fn *ssa.Function) {
 		ssau.ForEachInstr(fn, false, func(in ssa.Instruction) {
 			st, ok := in.(*ssa.Store)
 			if !ok || !reach[st.Block()] {
+				return
+			}
+			if lastPtr != nil && st.Addr == ssa.Value(lastPtr) {
+				if ok, _ := entryOK(st.Val); ok && (st.Block() == tsucc || pd.PostDominates(st.Block(), tsucc)) {
+					found = true
+				}
 				return
 			}
 			ia, ok := st.Addr.(*ssa.IndexAddr)
@@ -249,146 +283,15 @@ func c16AddEntry(c *Ctx, sx *symx.Ctx, fn *ssa.Function) {
 		// the size test, in any spelling: a branch whose true side is taken exactly
 		// when len(Entries) - MaxSize > 0 for the slice just appended to
 		// (len > Max; excess := len - Max; excess > 0; len - Max >= 1; ...)
-		var trimIf *ssa.If
-		var mLoad *ssa.UnOp
-		for _, iff := range ssau.Ifs(fn) {
-			op, x, y, ok := ssau.CondOf(iff.Cond)
-			if !ok {
+		if !c16TrimChecks(c, f, fn, fk, key, pd, trims, ap.Block(), ap.Pos(), vA, usedTrim) {
+			// the trimming may be a step called after the append: a method of the
+			// history that is reached on every path from the append, before any
+			// other change of Entries
+			if !c16TrimStep(c, sx, fn, fk, key, pd, ap) {
+				r.Bad("O-1", key+":trim-test", c.P.Pos(ap.Pos()), "no test `len(Entries) > MaxSize` on the slice just appended to: the history can grow beyond its maximum")
 				continue
 			}
-			if op == token.LSS || op == token.LEQ {
-				x, y, op = y, x, ssau.Flip(op)
-			}
-			if op != token.GTR && op != token.GEQ {
-				continue
-			}
-			d := linSub(linOf(f, x, 0), linOf(f, y, 0))
-			if !d.ok {
-				continue
-			}
-			if op == token.GEQ {
-				d.k++ // x >= y  <=>  x - y + 1 > 0
-			}
-			// d > 0 must read: len(Entries@vA) - MaxSize > 0
-			var le, ml *ssa.UnOp
-			good := d.k == 0 && len(d.terms) == 2
-			for a, cf := range d.terms {
-				v := d.vals[a]
-				if lc, isLen := v.(*ssa.Call); isLen && cf == 1 {
-					if l, ok := lenOfEntries(lc); ok && f.Version(l) == vA {
-						le = l
-						continue
-					}
-				}
-				if m, ok := histFieldLoad(v, "MaxSize"); ok && cf == -1 {
-					ml = m
-					continue
-				}
-				good = false
-			}
-			if good && le != nil && ml != nil {
-				trimIf, mLoad = iff, ml
-			}
 		}
-		if trimIf == nil {
-			r.Bad("O-1", key+":trim-test", c.P.Pos(ap.Pos()), "no test `len(Entries) > MaxSize` on the slice just appended to: the history can grow beyond its maximum")
-			continue
-		}
-		onAll := trimIf.Block() == ap.Block() || pd.PostDominates(trimIf.Block(), ap.Block())
-		r.Check(onAll, "O-1", key+":trim-test", c.P.Pos(trimIf.Pos()), "every path from the append passes the test len(Entries) > MaxSize", "some path from the append to the exit skips the size test")
-		// trim store in the true branch
-		succ := trimIf.Block().Succs[0]
-		var trim *ssa.Store
-		for _, t := range trims {
-			if t.Block() == succ || (pd.PostDominates(t.Block(), succ) && succ.Dominates(t.Block())) {
-				trim = t
-			}
-		}
-		if trim == nil {
-			r.Bad("O-1", key+":trim-keeps-newest", c.P.Pos(trimIf.Pos()), "the true branch of the size test does not store a reslice of Entries back")
-			continue
-		}
-		usedTrim[trim] = true
-		sl := trim.Val.(*ssa.Slice)
-		xl, _ := histFieldLoad(sl.X, "Entries")
-		shape := ""
-		// the survivors may be moved to the front first:
-		//   kept := copy(Entries, Entries[len-Max:]); Entries = Entries[:kept]
-		// the prefix then holds exactly the suffix that the plain form keeps
-		shifted := false
-		if sl.Low == nil && sl.Max == nil && sl.High != nil {
-			if cp, ok := sl.High.(*ssa.Call); ok && ssau.CallName(cp) == "builtin.copy" {
-				dst, src := cp.Common().Args[0], cp.Common().Args[1]
-				if _, ok := histFieldLoad(dst, "Entries"); ok {
-					if ss, ok := src.(*ssa.Slice); ok && ss.High == nil && ss.Max == nil && ss.Low != nil {
-						if sx0, ok := histFieldLoad(ss.X, "Entries"); ok && f.Version(sx0) == vA {
-							d := linOf(f, ss.Low, 0)
-							good := d.ok && d.k == 0 && len(d.terms) == 2
-							for a, cf := range d.terms {
-								v := d.vals[a]
-								if lc, isLen := v.(*ssa.Call); isLen && cf == 1 {
-									if l, ok := lenOfEntries(lc); ok && f.Version(l) == vA {
-										continue
-									}
-								}
-								if _, ok := histFieldLoad(v, "MaxSize"); ok && cf == -1 && f.E(v) == f.E(mLoad) {
-									continue
-								}
-								good = false
-							}
-							shifted = good
-						}
-					}
-				}
-			}
-		}
-		switch {
-		case shifted:
-		case sl.High != nil || sl.Max != nil:
-			shape = "the reslice has an upper bound (" + f.Plain(sl) + "): a prefix keeps the OLDEST entries and drops the newest"
-		case sl.Low == nil:
-			shape = "the reslice has no lower bound: nothing is trimmed"
-		case f.Version(xl) != vA:
-			shape = "the resliced value is not the slice that was just appended to"
-		default:
-			// the lower bound equals len(Entries) - MaxSize on the same values as the test
-			d := linOf(f, sl.Low, 0)
-			good := d.ok && d.k == 0 && len(d.terms) == 2
-			for a, cf := range d.terms {
-				v := d.vals[a]
-				if lc, isLen := v.(*ssa.Call); isLen && cf == 1 {
-					if l, ok := lenOfEntries(lc); ok && f.Version(l) == vA {
-						continue
-					}
-				}
-				if _, ok := histFieldLoad(v, "MaxSize"); ok && cf == -1 && f.E(v) == f.E(mLoad) {
-					continue
-				}
-				good = false
-			}
-			if !good {
-				shape = "the lower bound is " + f.Plain(sl.Low) + ", want len(Entries)-MaxSize on the same values as the test"
-			}
-		}
-		r.Check(shape == "", "O-1", key+":trim-keeps-newest", c.P.Pos(trim.Pos()), "Entries = Entries[len(Entries)-MaxSize:] under len(Entries) > MaxSize", shape)
-
-		// O-2: MaxSize >= 0 at the trim
-		if sl.Low != nil {
-			if mLoad != nil {
-				q := interval.New(f)
-				iv := q.At(mLoad, trim.Block())
-				ok2 := iv.LoOK && iv.Lo >= 0
-				detail := "no guard or default establishes MaxSize >= 0 on every path to the reslice: a negative max_size decoded from the history file makes Entries[len-MaxSize:] panic on every later search"
-				if ok2 {
-					detail = ""
-				}
-				if !ok2 && c16MaxSizeInvariant(c) {
-					ok2 = true
-				}
-				r.Check(ok2, "O-2", fk+"#trim-bound-validated", c.P.Pos(trim.Pos()), fmt.Sprintf("MaxSize >= %d established on every path to the reslice", iv.Lo), detail)
-			}
-		}
-
 		collapse(key, ap.Block(), ap.Pos())
 	}
 	for i, t := range trims {
@@ -413,7 +316,7 @@ func c16MaxSizeInvariant(c *Ctx) bool {
 			switch x := in.(type) {
 			case *ssa.Store:
 				if _, ok := ssau.IsFieldAddr(x.Addr, histType, "MaxSize"); ok {
-					iv := interval.New(f).At(x.Val, x.Block())
+					iv := interval.New(f).WithCallees(sx, c.P.IsRepoFunc).At(x.Val, x.Block())
 					if !(iv.LoOK && iv.Lo >= 0) {
 						okAll = false
 					}
@@ -562,9 +465,11 @@ func c16RoundTrip(c *Ctx) {
 func c16Views(c *Ctx, sx *symx.Ctx) {
 	r := c.R
 	// once-per-entry counting in GetTopQueries / getUniqueQueries
-	uniqueFn := "getUniqueQueries"
-	if c.P.Func("internal/history", "SearchHistory", uniqueFn) == nil {
-		uniqueFn = "GetStats" // the distinct-query table is built where it is used
+	// the function that builds the distinct-query table: the one whose size
+	// (or whose counted result) GetStats reports as UniqueQueries
+	uniqueFn := "GetStats"
+	if h := c16UniqueBuilder(c); h != nil {
+		uniqueFn = h.Name()
 	}
 	for _, spec := range []struct{ meth, what string }{{"GetTopQueries", "frequency"}, {uniqueFn, "unique"}} {
 		fn := c.P.Func("internal/history", "SearchHistory", spec.meth)
@@ -711,10 +616,10 @@ func c16Views(c *Ctx, sx *symx.Ctx) {
 			case "UniqueQueries":
 				n++
 				ok := false
+				if h := c16UniqueBuilder(c); h != nil && h != fn {
+					ok = true // its table is keyed by each entry's Query (checked above)
+				}
 				if call, isCall := st.Val.(*ssa.Call); isCall && ssau.CallName(call) == "builtin.len" {
-					if inner, isCall := call.Common().Args[0].(*ssa.Call); isCall && strings.HasSuffix(ssau.CallName(inner), "getUniqueQueries") {
-						ok = true
-					}
 					// or the size of a set built here, keyed by each entry's Query
 					// (its once-per-entry update is checked above)
 					if mk, isMk := call.Common().Args[0].(*ssa.MakeMap); isMk {
@@ -874,7 +779,7 @@ func c16Views(c *Ctx, sx *symx.Ctx) {
 					if call, isCall := x.(*ssa.Call); isCall && ssau.CallName(call) == "builtin.len" && op == token.LSS {
 						if _, isStrs := call.Common().Args[0].Type().Underlying().(*types.Slice); isStrs {
 							lim := f.Plain(y)
-							if y == ssa.Value(fn.Params[1]) || strings.Contains(lim, "phi:") && strings.Contains(lim, fn.Params[1].Name()) {
+							if y == ssa.Value(fn.Params[1]) || strings.Contains(lim, "phi:") && strings.Contains(lim, fn.Params[1].Name()) || c16DefaultedParam(c, y, fn.Params[1], 0) {
 								good = true
 							}
 						}
@@ -1169,4 +1074,407 @@ func c16AddEntryValueForm(c *Ctx, f *symx.Fn, fn *ssa.Function, fk string, store
 	}
 	collapse(key, app.Block(), app.Pos())
 	return true
+}
+
+// c16TrimChecks: the size test and the trim that follow an append of fn whose
+// store created version vA of Entries (apBlock: where that version starts).
+// false when fn has no size test on that version at all.
+func c16TrimChecks(c *Ctx, f *symx.Fn, fn *ssa.Function, fk, key string, pd *ssau.PostDom, trims []*ssa.Store, apBlock *ssa.BasicBlock, apPos token.Pos, vA string, usedTrim map[*ssa.Store]bool) bool {
+	r := c.R
+	var trimIf *ssa.If
+	var mLoad *ssa.UnOp
+	for _, iff := range ssau.Ifs(fn) {
+		op, x, y, ok := ssau.CondOf(iff.Cond)
+		if !ok {
+			continue
+		}
+		if op == token.LSS || op == token.LEQ {
+			x, y, op = y, x, ssau.Flip(op)
+		}
+		if op != token.GTR && op != token.GEQ {
+			continue
+		}
+		d := linSub(linOf(f, x, 0), linOf(f, y, 0))
+		if !d.ok {
+			continue
+		}
+		if op == token.GEQ {
+			d.k++ // x >= y  <=>  x - y + 1 > 0
+		}
+		// d > 0 must read: len(Entries@vA) - MaxSize > 0
+		var le, ml *ssa.UnOp
+		good := d.k == 0 && len(d.terms) == 2
+		for a, cf := range d.terms {
+			v := d.vals[a]
+			if lc, isLen := v.(*ssa.Call); isLen && cf == 1 {
+				if l, ok := lenOfEntries(lc); ok && f.Version(l) == vA {
+					le = l
+					continue
+				}
+			}
+			if m, ok := histFieldLoad(v, "MaxSize"); ok && cf == -1 {
+				ml = m
+				continue
+			}
+			good = false
+		}
+		if good && le != nil && ml != nil {
+			trimIf, mLoad = iff, ml
+		}
+	}
+	if trimIf == nil {
+		return false
+	}
+	onAll := trimIf.Block() == apBlock || pd.PostDominates(trimIf.Block(), apBlock)
+	r.Check(onAll, "O-1", key+":trim-test", c.P.Pos(trimIf.Pos()), "every path from the append passes the test len(Entries) > MaxSize", "some path from the append to the exit skips the size test")
+	// trim store in the true branch
+	succ := trimIf.Block().Succs[0]
+	var trim *ssa.Store
+	for _, t := range trims {
+		if t.Block() == succ || (pd.PostDominates(t.Block(), succ) && succ.Dominates(t.Block())) {
+			trim = t
+		}
+	}
+	if trim == nil {
+		r.Bad("O-1", key+":trim-keeps-newest", c.P.Pos(trimIf.Pos()), "the true branch of the size test does not store a reslice of Entries back")
+		return true
+	}
+	usedTrim[trim] = true
+	sl := trim.Val.(*ssa.Slice)
+	xl, _ := histFieldLoad(sl.X, "Entries")
+	shape := ""
+	// the survivors may be moved to the front first:
+	//   kept := copy(Entries, Entries[len-Max:]); Entries = Entries[:kept]
+	// the prefix then holds exactly the suffix that the plain form keeps
+	shifted := false
+	if sl.Low == nil && sl.Max == nil && sl.High != nil {
+		if cp, ok := sl.High.(*ssa.Call); ok && ssau.CallName(cp) == "builtin.copy" {
+			dst, src := cp.Common().Args[0], cp.Common().Args[1]
+			if _, ok := histFieldLoad(dst, "Entries"); ok {
+				if ss, ok := src.(*ssa.Slice); ok && ss.High == nil && ss.Max == nil && ss.Low != nil {
+					if sx0, ok := histFieldLoad(ss.X, "Entries"); ok && f.Version(sx0) == vA {
+						d := linOf(f, ss.Low, 0)
+						good := d.ok && d.k == 0 && len(d.terms) == 2
+						for a, cf := range d.terms {
+							v := d.vals[a]
+							if lc, isLen := v.(*ssa.Call); isLen && cf == 1 {
+								if l, ok := lenOfEntries(lc); ok && f.Version(l) == vA {
+									continue
+								}
+							}
+							if _, ok := histFieldLoad(v, "MaxSize"); ok && cf == -1 && f.E(v) == f.E(mLoad) {
+								continue
+							}
+							good = false
+						}
+						shifted = good
+					}
+				}
+			}
+		}
+	}
+	switch {
+	case shifted:
+	case sl.High != nil || sl.Max != nil:
+		shape = "the reslice has an upper bound (" + f.Plain(sl) + "): a prefix keeps the OLDEST entries and drops the newest"
+	case sl.Low == nil:
+		shape = "the reslice has no lower bound: nothing is trimmed"
+	case f.Version(xl) != vA:
+		shape = "the resliced value is not the slice that was just appended to"
+	default:
+		// the lower bound equals len(Entries) - MaxSize on the same values as the test
+		d := linOf(f, sl.Low, 0)
+		good := d.ok && d.k == 0 && len(d.terms) == 2
+		for a, cf := range d.terms {
+			v := d.vals[a]
+			if lc, isLen := v.(*ssa.Call); isLen && cf == 1 {
+				if l, ok := lenOfEntries(lc); ok && f.Version(l) == vA {
+					continue
+				}
+			}
+			if _, ok := histFieldLoad(v, "MaxSize"); ok && cf == -1 && f.E(v) == f.E(mLoad) {
+				continue
+			}
+			good = false
+		}
+		if !good {
+			shape = "the lower bound is " + f.Plain(sl.Low) + ", want len(Entries)-MaxSize on the same values as the test"
+		}
+	}
+	r.Check(shape == "", "O-1", key+":trim-keeps-newest", c.P.Pos(trim.Pos()), "Entries = Entries[len(Entries)-MaxSize:] under len(Entries) > MaxSize", shape)
+
+	// O-2: MaxSize >= 0 at the trim
+	if sl.Low != nil {
+		if mLoad != nil {
+			q := interval.New(f).WithCallees(symx.New(c.P.IsRepoFunc), c.P.IsRepoFunc)
+			iv := q.At(mLoad, trim.Block())
+			ok2 := iv.LoOK && iv.Lo >= 0
+			detail := "no guard or default establishes MaxSize >= 0 on every path to the reslice: a negative max_size decoded from the history file makes Entries[len-MaxSize:] panic on every later search"
+			if ok2 {
+				detail = ""
+			}
+			if !ok2 && c16MaxSizeInvariant(c) {
+				ok2 = true
+			}
+			r.Check(ok2, "O-2", fk+"#trim-bound-validated", c.P.Pos(trim.Pos()), fmt.Sprintf("MaxSize >= %d established on every path to the reslice", iv.Lo), detail)
+		}
+	}
+
+	return true
+}
+
+// c16TrimStep: after the append store ap of fn, every path to the exit calls
+// one method of the same history whose own body makes the size test and the
+// trim on the list it finds (no other store to Entries in it), and nothing
+// stores to Entries in between.
+func c16TrimStep(c *Ctx, sx *symx.Ctx, fn *ssa.Function, fk, key string, pd *ssau.PostDom, ap *ssa.Store) bool {
+	var step *ssa.Call
+	ssau.ForEachInstr(fn, false, func(in ssa.Instruction) {
+		call, ok := in.(*ssa.Call)
+		if !ok || step != nil {
+			return
+		}
+		g := call.Common().StaticCallee()
+		if g == nil || g.Blocks == nil || g.Signature.Recv() == nil || ssau.NamedOf(g.Signature.Recv().Type()) != histType || len(call.Common().Args) == 0 {
+			return
+		}
+		if a0 := call.Common().Args[0]; a0 != ssa.Value(fn.Params[0]) && ssau.ParamOf(a0) != fn.Params[0] {
+			return
+		}
+		// after the append on every path
+		after := false
+		if call.Block() == ap.Block() {
+			after = ssau.InstrIndex(call) > ssau.InstrIndex(ap)
+		} else {
+			after = pd.PostDominates(call.Block(), ap.Block())
+		}
+		if !after {
+			return
+		}
+		// the step stores to Entries only by reslicing
+		var trims []*ssa.Store
+		clean := true
+		ssau.ForEachInstr(g, true, func(i2 ssa.Instruction) {
+			st, ok := i2.(*ssa.Store)
+			if !ok {
+				return
+			}
+			if _, ok := ssau.IsFieldAddr(st.Addr, histType, "Entries"); !ok {
+				return
+			}
+			if sl, ok := st.Val.(*ssa.Slice); ok {
+				if _, ok := histFieldLoad(sl.X, "Entries"); ok {
+					trims = append(trims, st)
+					return
+				}
+			}
+			clean = false
+		})
+		if !clean || len(trims) == 0 {
+			return
+		}
+		step = call
+		gf := sx.Of(g)
+		// the version of Entries the step finds
+		vA := ""
+		ssau.ForEachInstr(g, false, func(i2 ssa.Instruction) {
+			if u, ok := i2.(*ssa.UnOp); ok && vA == "" {
+				if l, ok := histFieldLoad(u, "Entries"); ok && l == u {
+					vA = gf.Version(u)
+				}
+			}
+		})
+		used := map[*ssa.Store]bool{}
+		if !c16TrimChecks(c, gf, g, fk, key, ssau.NewPostDom(g), trims, g.Blocks[0], call.Pos(), vA, used) {
+			step = nil
+			return
+		}
+		for i, t := range trims {
+			if !used[t] {
+				c.R.Bad("O-1", fmt.Sprintf("%s#stray-reslice-%d", load.FuncKey(g), i+1), c.P.Pos(t.Pos()), "Entries is resliced outside the size test: "+gf.Plain(t.Val))
+			}
+		}
+	})
+	return step != nil
+}
+
+// c16LastEntryAccessor: call is h(sh) on fn's own receiver, h a method of the
+// history whose every return is nil or &Entries[len(Entries)-1], the latter
+// only where len(Entries) - 1 >= 0 is established.
+func c16LastEntryAccessor(c *Ctx, sx *symx.Ctx, call *ssa.Call, fn *ssa.Function) bool {
+	h := call.Common().StaticCallee()
+	if h == nil || h.Blocks == nil || h.Signature.Recv() == nil || ssau.NamedOf(h.Signature.Recv().Type()) != histType || len(call.Common().Args) != 1 {
+		return false
+	}
+	if a0 := call.Common().Args[0]; a0 != ssa.Value(fn.Params[0]) && ssau.ParamOf(a0) != fn.Params[0] {
+		return false
+	}
+	hf := sx.Of(h)
+	n := 0
+	for _, ret := range ssau.ReturnsOf(h) {
+		v := ssau.ResultValue(ret, 0)
+		if ssau.IsNilConst(v) {
+			continue
+		}
+		ia, ok := v.(*ssa.IndexAddr)
+		if !ok {
+			return false
+		}
+		el, ok := histFieldLoad(ia.X, "Entries")
+		if !ok || hf.E(ia.Index) != "(len("+hf.E(el)+") - 1)" {
+			return false
+		}
+		if iv := interval.New(hf).At(ia.Index, ret.Block()); !(iv.LoOK && iv.Lo >= 0) {
+			return false
+		}
+		n++
+	}
+	// the accessor changes nothing
+	pure := true
+	ssau.ForEachInstr(h, true, func(in ssa.Instruction) {
+		switch in.(type) {
+		case *ssa.Store, *ssa.MapUpdate:
+			pure = false
+		}
+	})
+	return n > 0 && pure
+}
+
+// c16DefaultedParam: v is parameter p, possibly replaced by a constant on
+// some paths (a default): p itself, a merge of p and constants, or the result
+// of a repository helper that returns one of its arguments, those being p
+// and constants.
+func c16DefaultedParam(c *Ctx, v ssa.Value, p *ssa.Parameter, d int) bool {
+	if d > 4 {
+		return false
+	}
+	switch x := v.(type) {
+	case *ssa.Parameter:
+		return x == p
+	case *ssa.Phi:
+		some := false
+		for _, e := range x.Edges {
+			if _, isC := e.(*ssa.Const); isC {
+				continue
+			}
+			if !c16DefaultedParam(c, e, p, d+1) {
+				return false
+			}
+			some = true
+		}
+		return some
+	case *ssa.Call:
+		g := x.Common().StaticCallee()
+		if g == nil || g.Blocks == nil || !c.P.IsRepoFunc(g) || g.Signature.Results().Len() != 1 {
+			return false
+		}
+		some := false
+		for _, ret := range ssau.ReturnsOf(g) {
+			rv := ssau.ResultValue(ret, 0)
+			if _, isC := rv.(*ssa.Const); isC {
+				continue
+			}
+			gp, ok := rv.(*ssa.Parameter)
+			if !ok {
+				return false
+			}
+			i := paramIdx(g, gp)
+			if i < 0 || i >= len(x.Common().Args) {
+				return false
+			}
+			a := x.Common().Args[i]
+			if _, isC := a.(*ssa.Const); isC {
+				continue
+			}
+			if !c16DefaultedParam(c, a, p, d+1) {
+				return false
+			}
+			some = true
+		}
+		return some
+	}
+	return false
+}
+
+// c16QueryKeyedSet: v is a map made in its function whose every update is
+// keyed by the Query field of a history entry.
+func c16QueryKeyedSet(v ssa.Value) bool {
+	mk, ok := v.(*ssa.MakeMap)
+	if !ok {
+		return false
+	}
+	n := 0
+	for _, ref := range *mk.Referrers() {
+		if mu, isMu := ref.(*ssa.MapUpdate); isMu && mu.Map == ssa.Value(mk) {
+			u, isU := mu.Key.(*ssa.UnOp)
+			if !isU {
+				return false
+			}
+			fa, isFA := u.X.(*ssa.FieldAddr)
+			if !isFA || ssau.FieldName(fa) != "Query" {
+				return false
+			}
+			n++
+		}
+	}
+	return n > 0
+}
+
+// c16UniqueBuilder: the method of the history that builds the set of
+// distinct queries whose size GetStats stores into Stats.UniqueQueries —
+// reported as len(h()) with h returning the set, or as h() with h returning
+// the set's len — or GetStats itself when the set is built there. nil when
+// the stored value has none of these forms.
+func c16UniqueBuilder(c *Ctx) *ssa.Function {
+	stats := c.P.Func("internal/history", "SearchHistory", "GetStats")
+	if stats == nil {
+		return nil
+	}
+	var out *ssa.Function
+	ssau.ForEachInstr(stats, false, func(in ssa.Instruction) {
+		st, ok := in.(*ssa.Store)
+		if !ok {
+			return
+		}
+		fa, ok := st.Addr.(*ssa.FieldAddr)
+		if !ok || ssau.NamedOf(fa.X.Type()) != histPkg+".Stats" || ssau.FieldName(fa) != "UniqueQueries" {
+			return
+		}
+		isHist := func(g *ssa.Function) bool {
+			return g != nil && g.Blocks != nil && g.Signature.Recv() != nil && ssau.NamedOf(g.Signature.Recv().Type()) == histType
+		}
+		lenOf := func(v ssa.Value) ssa.Value {
+			if call, ok := v.(*ssa.Call); ok && ssau.CallName(call) == "builtin.len" {
+				return call.Common().Args[0]
+			}
+			return nil
+		}
+		if arg := lenOf(st.Val); arg != nil {
+			if c16QueryKeyedSet(arg) {
+				out = stats
+				return
+			}
+			if inner, ok := arg.(*ssa.Call); ok && isHist(inner.Common().StaticCallee()) {
+				h := inner.Common().StaticCallee()
+				for _, ret := range ssau.ReturnsOf(h) {
+					if !c16QueryKeyedSet(ssau.ResultValue(ret, 0)) {
+						return
+					}
+				}
+				out = h
+			}
+			return
+		}
+		if call, ok := st.Val.(*ssa.Call); ok && isHist(call.Common().StaticCallee()) {
+			h := call.Common().StaticCallee()
+			for _, ret := range ssau.ReturnsOf(h) {
+				arg := lenOf(ssau.ResultValue(ret, 0))
+				if arg == nil || !c16QueryKeyedSet(arg) {
+					return
+				}
+			}
+			out = h
+		}
+	})
+	return out
 }
